@@ -144,6 +144,19 @@ func (c *Ctx) randBlob(ns share.Namespace, n int, v1 bool) blobSpec {
 	if v1 {
 		b.ver = 1
 		b.signer = c.rng.Bytes(20)
+		// boundary signers: all zero (looks like zero fill), all 0xff, a single set bit at either end
+		switch c.rng.Intn(12) {
+		case 0:
+			b.signer = make([]byte, 20)
+		case 1:
+			b.signer = bytes.Repeat([]byte{0xff}, 20)
+		case 2:
+			b.signer = make([]byte, 20)
+			b.signer[19] = 1
+		case 3:
+			b.signer = make([]byte, 20)
+			b.signer[0] = 0x80
+		}
 	}
 	return b
 }
